@@ -284,17 +284,19 @@ PROPS["C04"] = {
     "functions": [
         "barter_execution::map::ExecutionInstrumentMap::{new, find_asset_name_exchange, find_asset_index, find_instrument_name_exchange, "
         "find_instrument_index, find_exchange_id, find_exchange_index}",
-        "barter_execution::indexer::AccountEventIndexer::{order_request, asset_balance}",
+        "barter_execution::indexer::AccountEventIndexer::{order_request, asset_balance, order_response_cancel, order_key}",
     ],
     "bounds": {
         "quick": "concrete configuration family: 2 exchanges, global assets [ex0:btc, ex0:usdt, ex1:btc, ex1:usdt, ex1:eth] (shared names, global index != "
                  "per-exchange position), global instruments [ex0:btcusdt, ex1:xbtusdt, ex1:ethusdt]; per exchange link: symbolic global asset index 0..6, "
-                 "instrument index 0..4 (own / foreign / out of range), symbolic name among own / foreign / unknown, symbolic exchange index; unwind 26",
-        "thorough": "quick + inbound balance on exchange 0",
+                 "instrument index 0..4 (own / foreign / out of range), symbolic name among own / foreign / unknown, symbolic exchange index; inbound cancel response with symbolic exchange id (own / foreign / third) x "
+                 "symbolic instrument name; unwind 26",
+        "thorough": "quick + inbound balance and inbound cancel response on exchange 0",
     },
     "outside": ["configurations outside the family (strings cannot be symbolic); generate_execution_instrument_map's filter over IndexedInstruments "
                 "(builder runs over heap Vecs of string-keyed records); ExecutionManager::run (tokio)",
-                "inbound order / trade events (same find_instrument_index lookup as the checked ones)"],
+                "inbound order snapshots / trade events / account snapshots (same order_key / find_instrument_index / find_asset_index lookups as the checked ones, "
+                "but their own field plumbing is not executed)"],
     "assumptions": ["the per-exchange (global index, name) tables handed to ExecutionInstrumentMap::new are those of the exchange, in global index order"],
     "tiers": {
         "quick": {"filters": ["c04_q_", "c04_twin_"], "jobs": 8, "harness_timeout_s": 900, "total_timeout_s": 2400, "mem_gb": 8},
